@@ -6,7 +6,7 @@ segments
   ["z", n, byte]      n copies of one byte
   ["r", seed, n]      n pseudo-random bytes (random.Random(seed))
   ["h", hex]          literal bytes
-  ["m", {...}]        a FusionEngine message: type, ver, seq, src, reserved, payload (a recipe), and the
+  ["m", {...}]        a FusionEngine message: type, ver, seq, src, reserved, proto, payload (a recipe), and the
                       deliberate corruptions crc_xor (flip CRC bits), claim (payload_size field differs from
                       the bytes present), crc_len (CRC computed over only the first crc_len bytes of the
                       protected region — what a truncating slice sees)
@@ -37,7 +37,7 @@ def build_msg(p):
     psize = p['claim'] if p.get('claim') is not None else len(payload)
     return header(p.get('type', 10000), psize, payload, ver=p.get('ver', 0), seq=p.get('seq', 0),
                   src=p.get('src', 0xFFFFFFFF), reserved=p.get('reserved', 0), crc_xor=p.get('crc_xor', 0),
-                  crc_len=p.get('crc_len'))
+                  crc_len=p.get('crc_len'), proto=p.get('proto', 2))
 
 
 def build_overlap(p):
